@@ -861,6 +861,17 @@ func runChurn(t interface{ Fatalf(string, ...any) }, c *ChurnCase) {
 }
 
 func drawChurn(t *rapid.T) *ChurnCase {
+	c := drawChurn1(t)
+	if rapid.IntRange(0, 2).Draw(t, "cyclers-only") == 0 {
+		// nobody keeps a connection: the data source's connection count crosses
+		// zero all the time while another handle is being opened
+		c.Goroutines = rapid.IntRange(0, 1).Draw(t, "fewg")
+		c.Handles = rapid.IntRange(2, 4).Draw(t, "cyclers")
+	}
+	return c
+}
+
+func drawChurn1(t *rapid.T) *ChurnCase {
 	return &ChurnCase{
 		Data:       gen.DataSpec{Explicit: append([]model.Row{{"a": "1"}}, gen.Explicit(t, gen.DataOpts{MaxRows: 6, IdentCols: true}).Rows()...)},
 		Opt:        rapid.SampledFrom([]int{0, 0, 0, 1, 2, 3}).Draw(t, "opt"),
